@@ -488,6 +488,10 @@ def invariants(api):
         chk(an == sorted(an), 'aliases not alphabetical')
         rn = [(r.name, r.version) for r in ns.routes]
         chk(rn == sorted(rn), 'routes not sorted')
+        atn = [t.name for t in ns.annotation_types]
+        chk(atn == sorted(atn), 'annotation types not alphabetical')
+        ann = [a.name for a in ns.annotations]
+        chk(ann == sorted(ann), 'annotations not alphabetical')
         chk(len(set(rn)) == len(rn), 'duplicate route')
         chk(set(ns.data_type_by_name) == set(tn) and all(ns.data_type_by_name[d.name] is d for d in ns.data_types),
             'data_type_by_name mismatch')
